@@ -475,3 +475,11 @@ CHECKS["C19"]["rule"] += " A quarter of the cases run on a proxy restarted from 
 CHECKS["C20"]["rule"] += (" Decision table: --max-request-body 0 / --max-response-body 0 given explicitly. Binary layer: the proxy is killed and restarted between commands (list must still print "
                           "the model); a third of the cases begin with a TLS root service and a sub-path service on its host (TLS column follows the root); a sixth redeploy a service while a 3 s "
                           "request is in flight on the replaced target (--deploy-timeout 400ms --drain-timeout 10s): exit status 0 and the request completes.")
+
+PROBE_HIST_RULE = (" Probe-history layer (TestVF_%s_History): the history generator of the other history layers (1-14 commands with the full option set, a sixth refused, restarts "
+                   "from the state file anywhere); then the probes of the next 12 s are counted per target and health path. Oracle, by the model: %s Rollout targets that still "
+                   "carry the options of an earlier deploy (the listed finding) are left out. Non-trivial there = at least one target in place.")
+CHECKS["C09"]["layers"].append(L("TestVF_C09_History", 300, 4000))
+CHECKS["C09"]["rule"] += PROBE_HIST_RULE % ("C09", "every target of every service in place gets at least one probe less than the interval of the options in force allows for, on the health path in force.")
+CHECKS["C17"]["layers"].append(L("TestVF_C17_History", 300, 4000))
+CHECKS["C17"]["rule"] += PROBE_HIST_RULE % ("C17", "no target gets more than the services in place send it (one more than the interval allows per stream) - in particular none for the targets of removed, replaced or refused deployments and of the proxy that ran before a restart.")
